@@ -23,6 +23,14 @@ LEVEL_NOTE = ("Model fidelity is checked, not proved. Layered correspondence: re
 OPS = {"pump_amp", "spectral_width", "norms", "jsa_raw", "jsa", "invalid_freq", "pm_consts"}
 TOL = {"pump_amp": ("rel", 1e-11), "spectral_width": ("rel", 1e-11), "norms": ("rel", 1e-11), "jsa_raw": ("csum", 1e-10),
        "jsa": ("rel", 1e-11), "pm_consts": ("ulp", 1)}
+# COMPOSED end-to-end model (Model/Compose.lean, notes/compose.md): primitive setup only on the K line; envelope, jsa_raw,
+# normalisations, jsa and jsi are recomputed through ALL layers (Sellmeier → Fresnel → beams → Snell → walk-off → poling →
+# integrand → Simpson → envelope/support → normalisation).  Observed worst: envelope and normalisations bit-for-bit,
+# jsa_raw / jsa 4.4e-16 and jsi 7.4e-16 of the absolute quadrature scale (3 × 3000 setups × 4 pairs); the singles function
+# (2-D Simpson, rayon sum, no absolute-sum scale available from the crate) 9.8e-11 typical, 2.9e-8 at one cancellation-dominated point.
+OPS |= {"cmp_pump_amp", "cmp_jsa_raw", "cmp_norm", "cmp_jsa", "cmp_jsi", "cmp_pm_singles"}
+TOL.update({"cmp_pump_amp": ("ulp", 4), "cmp_jsa_raw": ("csum", 5e-14), "cmp_norm": ("ulp", 16), "cmp_jsa": ("csum", 5e-14),
+            "cmp_jsi": ("csum", 1e-13), "cmp_pm_singles": ("rel", 1e-6)})
 DEFAULT_TOL = ("exact",)
 RULE = ("family pm/k: random general setups × 2 frequency pairs (envelope, spectral width, normalisations, jsa_raw for several divs, "
         "constants); family pm/c07: setups (two thirds phase-matched by the crate's optimum calls) × {3 random pairs, 6 pairs on the "
@@ -32,10 +40,10 @@ RULE = ("family pm/k: random general setups × 2 frequency pairs (envelope, spec
 RESIDUAL = ("finiteness inside the transmission window (non-vanishing of A1, A2, denom1·denom2, no overflow in exp) is checked by "
             "evaluation only; floating-point rounding is measured (linearity ≤ ~1e-15, invariance ≤ ~1e-13)")
 TRUSTED_EXTRA = ["tools/props/_pmtol.py: complex-aware comparison (|Δ| relative to the modulus / to the absolute quadrature sum)"]
-CHECKER_MODULES = ["Spdc.Real.Jsa"]
+CHECKER_MODULES = ["Spdc.Real.Jsa", "Spdc.Real.ComposeLemmas"]
 
 
 def families(tier, seed):
     if tier == "quick":
-        return [("pm", seed, 1000, ["k"]), ("pm", seed, 1000, ["c07"])]
-    return [("pm", seed, 4000, ["k"]), ("pm", seed, 4000, ["c07"])]
+        return [("pm", seed, 1000, ["k"]), ("pm", seed, 1000, ["c07"]), ("compose", seed, 2500, ["c07"])]
+    return [("pm", seed, 4000, ["k"]), ("pm", seed, 4000, ["c07"]), ("compose", seed, 25000, ["c07"])]
